@@ -1,4 +1,7 @@
 pub mod c03_certs;
 pub mod c04_admission;
 pub mod c06_safe_to;
+pub mod c07_parent_ready;
+pub mod c08_finality;
 pub mod c15_merkle;
+pub mod world_run;
